@@ -430,6 +430,18 @@ def gen_image(rng):
         pad = 0x10000 + rng.randrange(0, 64)
         img = b'\x90' * pad + img
         bounds = [pad + b for b in bounds]
+    # block-boundary placement (keyed by the image itself, the main stream of choices is untouched): one instruction
+    # of the image straddles a multiple of 2^k - where a back end that fetches, buffers or maps by blocks changes block
+    r2 = random.Random('straddle/' + img.hex())
+    if r2.random() < 0.08 and len(bounds) >= 2:
+        j = r2.randrange(len(bounds) - 1)
+        b, l = bounds[j], bounds[j + 1] - bounds[j]
+        if l >= 2:
+            k = r2.choice([6, 9, 12, 12, 13, 16])
+            d = r2.randrange(1, l)
+            pad = ((1 << k) - d - b) % (1 << k)
+            img = b'\x90' * pad + img
+            bounds = [pad + x for x in bounds]
     return img, bounds
 
 def gen_run(rng):
